@@ -37,7 +37,8 @@ class CHECK(Check):
             "one matching a pattern) x text contents from empty to longer than the sections consume, read from memory or (a third) from a utf-8 file on disk, with and without final "
             "newline: every content of <=4 lines (quick: <=3) over an 8-line pool for 12 fixed section lists (complete), plus "
             "random lists/contents of up to 12 lines. Observed: element types and raw data of SectionFile.read(content).data and "
-            "the output of write. non-trivial = content shorter than the declared sections expect, or leftovers; distinct = hash")
+            "the output of write. non-trivial = content shorter than the declared sections expect, or leftovers; distinct = hash"
+            " Later additions: section read() returning True/honest False/None, a third of the cases read from disk, carriage returns as ordinary characters.")
 
     def gen(self, tier, rng):
         import random
